@@ -5,7 +5,7 @@ import ast
 from typing import Any, Dict, List, Optional, Tuple
 
 from ..callgraph import classes_of
-from ..kit import Ctx, caller_ok, calls, calls_target, kw, loops, normal_paths, rule, short, stores
+from ..kit import path_text, Ctx, caller_ok, calls, calls_target, kw, loops, normal_paths, rule, short, stores
 from ..paths import Event, Path
 from ..terms import NONE, Term, key, strip_ver, subterms
 from ..types import elem_type, strip_opt
@@ -83,9 +83,9 @@ def r1(ctx: Ctx) -> None:
     for f, node, cs, nm in sinks:
         for c in cs:
             if c in allowed:
-                ctx.check(caller_ok(ctx, f, lambda g, c=c: g.qualname in allowed[c]), f, node, f"sink for {c} records in {f.qualname}", "written only by " + ", ".join(sorted(allowed[c])), f"{f.qualname} calls {nm}")
+                ctx.check(caller_ok(ctx, f, lambda g, c=c: g.qualname in allowed[c]), f, node, f"sink for {c} records in {f.qualname}", "written only by " + ", ".join(sorted(allowed[c])), f"{f.qualname} calls {nm}", guard="site")
             elif c in runner_logs:
-                ctx.check(caller_ok(ctx, f, lambda g: g.qualname in (RUN, IT)), f, node, f"sink for {c} in {f.qualname}", f"{RUN} | {IT}", f.qualname)
+                ctx.check(caller_ok(ctx, f, lambda g: g.qualname in (RUN, IT)), f, node, f"sink for {c} in {f.qualname}", f"{RUN} | {IT}", f.qualname, guard="site")
             else:
                 ctx.violated(f, node, f"sink for {c} in {f.qualname}", "a known record class", c)
     # per creator: exactly one sink per created record when a logger is attached, none otherwise
@@ -104,7 +104,7 @@ def r1(ctx: Ctx) -> None:
             w = [e for e in calls(p) if (e.name in SINKS_ON_LOG and e.recv == rec) or (e.name in SINKS_ON_LOGGER and (kw(e, SINKS_ON_LOGGER[e.name], 0) == rec or rec in list(subterms(kw(e, SINKS_ON_LOGGER[e.name], 0) or NONE))))]
             has_logger = [pol for c, pol, _ in p.conds if key(strip_ver(c)) == "(self.logger is None)"]
             want = 1 if (has_logger and not has_logger[-1]) else 0
-            ctx.check(len(w) == want and bool(has_logger), f, made[0].node, f"{cls_} is written once iff a logger is attached", f"{want} write(s) on this path", f"{len(w)} write(s), logger test {'present' if has_logger else 'absent'}")
+            ctx.check(len(w) == want and bool(has_logger), f, made[0].node, f"{cls_} is written once iff a logger is attached", f"{want} write(s) on this path", f"{len(w)} write(s), logger test {'present' if has_logger else 'absent'}", guard="text", guard_text=path_text(p))
             ctx.check(p.exit[0] == "return" and p.exit[1] == rec, f, f.node, f"{q} returns the record it wrote", "return log", short(p.exit[1]) if p.exit[0] == "return" else p.exit[0])
         ctx.require(n >= 1, f"{q}: no accepting path")
     # receivers of returned records do not sink them again
@@ -284,7 +284,7 @@ def r4(ctx: Ctx) -> None:
         f = ctx.func(q)
         ps = normal_paths(ctx.paths(q))
         ok, found = check(ps)
-        ctx.check(ok, f, f.node, f"{q}", found[0], found[1])
+        ctx.check(ok, f, f.node, f"{q}", found[0], found[1], guard="text", guard_text=" ".join(path_text(p_) for p_ in ps))
 
     def w(ps):
         ev = [e for p in ps for e in p.events if e.kind in ("call", "store") and not (e.kind == "call" and e.pure)]
